@@ -33,6 +33,25 @@ PROBES = {
 }
 
 
+# every variant switch of the driver with the value of the repaired code, and the families whose replay depends on it
+ALL_FACTS = {"r5SkipSame": "true", "r6NameTest": "true", "r8SkipSupplied": "true", "publishAfterUpdate": "true",
+             "trackReaching": "true", "takeValuedNamed": "true", "hopCopies": "true", "skipRecordsInput": "false",
+             "memoCopy": "true", "dupIsError": "true", "fixedReverse": "true", "vsetValidates": "true"}
+RESOLVER_FAMILIES = {"call", "redef", "hist", "conv"}
+FACT_FAMILIES = {"fixedReverse": {"gops"}, "vsetValidates": {"vset"}}
+
+
+def relevant_facts(P):
+    """the facts the driver's replay of this property's families depends on (besides those the property lists)"""
+    fams = {f[0] for t in P["runs"].values() for f in t}
+    out = dict(P.get("facts", {}))
+    for k, v in ALL_FACTS.items():
+        need = FACT_FAMILIES.get(k, RESOLVER_FAMILIES)
+        if fams & need:
+            out.setdefault(k, v)
+    return out
+
+
 def nontrivial(kind, st, r):
     g = lambda k, d=0: int(st.get(k, d)) if str(st.get(k, d)).lstrip("-").isdigit() else d
     if kind == "gops":
